@@ -33,6 +33,8 @@ UGRID_VARIANTS = [
     dict(supplied=set(), coords_as_coords=True, fill='nan', start_index=0),
     # edges known only through face_edge / edge_face and a declared edge dimension (no edge_node table)
     dict(supplied={'face_edge', 'edge_face'}, coords_as_coords=False, fill='attr', start_index=1, edge_dim_declared=True),
+    # a one-based mesh of exactly 9 nodes (3 x 3) kept whole by the clip: the highest one-based node number is a single 9
+    dict(supplied={'face_face'}, coords_as_coords=False, fill='attr', start_index=1, nine_nodes=True),
     dict(),
 ]
 
@@ -48,6 +50,9 @@ def build_dataset(rng, fam, tmp, tag, *, variant=0):
         # coordinates, fill as an attribute; at least 2x2 cells so that a clip can drop something
         kw.update(UGRID_VARIANTS[variant % len(UGRID_VARIANTS)])
         kw.update(w=rng.randint(2, 4), h=rng.randint(2, 3))
+        if kw.pop('nine_nodes', False):
+            kw.pop('w'), kw.pop('h')
+            kw['mesh'] = gen.lattice_mesh(rng, 2, 2, variety=False, drop=False)
     d = gen.any_dataset(rng, fam, **kw)
     ds = d.ds
     kinds = d.spec['kinds']
@@ -162,6 +167,14 @@ def flows(ctx, n_ds, quick):
         rng.shuffle(geoms)
         # meshes always meet the region that leaves out one cell in the middle (a face dropped with all its nodes kept)
         geoms.sort(key=lambda g: 0 if (fam == 'ugrid' and g[0] == 'around_one_cell') else 1)
+        if fam == 'ugrid' and len(polys) == 4 and d.spec.get('start_index') == 1:
+            # the nine-node mesh is also clipped to a region that keeps all of it
+            geoms.sort(key=lambda g: 0 if g[0] == 'cover' else 1)
+            if geoms[0][0] != 'cover':
+                xs_ = [x for p in polys if p for x, y in p]
+                ys_ = [y for p in polys if p for x, y in p]
+                geoms.insert(0, ('cover', [('ring', [(min(xs_) - 1, min(ys_) - 1), (max(xs_) + 1, min(ys_) - 1), (max(xs_) + 1, max(ys_) + 1),
+                                                      (min(xs_) - 1, max(ys_) + 1)])]))
         for gi, (tag, parts) in enumerate(geoms[:((3 if fam == 'ugrid' else 2) if quick else 4)]):
             g = to_shapely(parts)
             shp = [None if p is None else __import__('shapely').Polygon(p) for p in polys]
